@@ -43,7 +43,8 @@ def canon(h, rename: bool = True) -> dict:
         n = dict(nodes[old])
         n["parent"] = new[n["parent"]]
         out_nodes.append(n)
-    edges = sorted([[new[a], ap], [new[b], bp]] for (a, ap), (b, bp) in d["edges"])
+    edges = sorted(([[new[a], -1 if ap is None else ap], [new[b], -1 if bp is None else bp]]
+                    for (a, ap), (b, bp) in d["edges"]))
     meta = d.get("metadata") or [None] * len(nodes)
     out = {"nodes": out_nodes, "edges": edges, "metadata": [meta[old] for old in order],
            "entrypoint": new.get(d.get("entrypoint"), d.get("entrypoint"))}
